@@ -84,6 +84,26 @@ class C16(Check):
                 f = bytes(cd2) + struct.pack("<IHHHHIIH", 0x06054b50, 0, 0, 1, 1, len(cd2), 0, 0) + local + payload[:keep]
                 m2 = dict(m); m2["data_start"] = len(cd) + 22 + len(local)
                 add(f, m2, b"pw", strength, "intact" if keep == len(payload) else "truncated", content, ver == 2)
+        # exhaustive bit flips on the ciphertext of small COMPRESSED AE-2 entries (CRC ignored): a flipped bit may make the
+        # inner stream end early (end-of-block, final-block bit), so that the decoder never asks the AES layer for more --
+        # the authentication code must be checked all the same before end-of-file is reported (implementation only)
+        import zlib
+        text = b"It was a bright cold day in April, and the clocks were striking thirteen. " * 2
+        co = zlib.compressobj(9, zlib.DEFLATED, -15)
+        two_blocks = co.compress(b"hello ") + co.flush(zlib.Z_FULL_FLUSH) + co.compress(b"world, hello world") + co.flush()
+        for ver, strength, content, payload in ((2, 1, text, None), (2, 3, b"hello world, hello world", two_blocks), (1, 2, text[:40], None)):
+            salt = bytes(range(KLEN[strength] // 2))
+            data, man = genzip.build([Entry(b"t", content, method=8, payload=payload, password=b"pw", aes=(ver, strength, salt))])
+            m = man["entries"][0]
+            ds, de = m["data_start"], m["data_start"] + m["csize"]
+            dk = self.dk_for(data, m, b"pw", strength)
+            cases.append(("aes_entry %s 0 %s %s 4096" % (hexs(data), hexs(b"pw"), hexs(dk)), dict(kind="intact", content=content.hex(), ae2=ver == 2, n=len(content), impl_only=True)))
+            spots = range(ds + len(salt) + 2, de)
+            for p_ in (spots if self.tier == "thorough" or ver == 2 else list(spots)[::3]):
+                for bit in range(8):
+                    d = bytearray(data); d[p_] ^= 1 << bit
+                    cases.append(("aes_entry %s 0 %s %s %d" % (hexs(bytes(d)), hexs(b"pw"), hexs(dk), r.choice([1, 7, 4096])),
+                                  dict(kind="flip-" + ("mac" if p_ >= de - 10 else "ct-deflated"), content=content.hex(), ae2=ver == 2, n=len(content), impl_only=True)))
         # the repo's own fixture
         try:
             fx = open("/repo/tests/data/aes_archive.zip", "rb").read()
